@@ -57,6 +57,27 @@ fn parse_args() -> Args {
     Args { pos, kv }
 }
 
+/// any integer (also negative or beyond 64 bits) or text selects a seed deterministically
+fn parse_seed(s: Option<&String>) -> u64 {
+    match s.map(|s| s.trim()) {
+        None | Some("") => DEFAULT_SEED,
+        Some(t) => {
+            if let Ok(u) = t.parse::<u64>() {
+                u
+            } else if let Ok(i) = t.parse::<i64>() {
+                i as u64
+            } else {
+                let mut h = 0xcbf2_9ce4_8422_2325u64;
+                for b in t.bytes() {
+                    h ^= b as u64;
+                    h = h.wrapping_mul(0x0000_0100_0000_01B3);
+                }
+                h
+            }
+        },
+    }
+}
+
 fn harness_fail(msg: &str) -> ! {
     eprintln!("HARNESS-ERROR: {msg}");
     std::process::exit(2);
@@ -254,10 +275,7 @@ fn supervise_run(args: &Args) -> ! {
     let err = String::from_utf8_lossy(&out.stderr).to_string();
     let prop = args.kv.get("prop").cloned().unwrap_or_else(|| harness_fail("--prop missing"));
     let tier = args.kv.get("tier").cloned().unwrap_or("quick".into());
-    let seed: u64 = match args.kv.get("seed") {
-        Some(s) if !s.is_empty() => s.parse().unwrap_or(DEFAULT_SEED),
-        _ => DEFAULT_SEED,
-    };
+    let seed: u64 = parse_seed(args.kv.get("seed"));
     let scale: f64 = args.kv.get("scale").and_then(|s| s.parse().ok()).unwrap_or(1.0);
     let replay_dir = args.kv.get("replay-dir").cloned().unwrap_or("replays".into());
     let _ = std::fs::create_dir_all(&replay_dir);
@@ -381,10 +399,7 @@ fn main() {
 fn cmd_run(args: &Args, digest_only: bool) -> ! {
     let prop = args.kv.get("prop").cloned().unwrap_or_else(|| harness_fail("--prop missing"));
     let tier = args.kv.get("tier").cloned().unwrap_or("quick".into());
-    let seed: u64 = match args.kv.get("seed") {
-        Some(s) if !s.is_empty() => s.parse().unwrap_or_else(|_| harness_fail("bad --seed")),
-        _ => DEFAULT_SEED,
-    };
+    let seed: u64 = parse_seed(args.kv.get("seed"));
     let workers: usize = args.kv.get("workers").and_then(|s| s.parse().ok()).unwrap_or(16).max(1);
     let scale: f64 = args.kv.get("scale").and_then(|s| s.parse().ok()).unwrap_or(1.0);
     let t0 = Instant::now();
